@@ -132,6 +132,10 @@ class HoppingParams:
 		if ma_len == 0: # TODO: or rather > 1?
 			raise ValueError("Mobile Allocation is empty")
 
+		# HSN indexes RNTABLE, see 3GPP TS 45.002, section 6.2.3
+		if hsn not in range(64):
+			raise ValueError("HSN %d is out of range" % hsn)
+
 		self.hsn = hsn
 		self.maio = maio
 		self.ma = ma
